@@ -157,6 +157,11 @@ func isPSIComplete(ps []*Packet) bool {
 	// Pointer filler bytes
 	i.Skip(int(b))
 
+	// No section has started yet
+	if !i.HasBytesLeft() {
+		return false
+	}
+
 	for i.HasBytesLeft() {
 
 		// Get PSI table ID
